@@ -344,6 +344,38 @@ MULTI["I1-introduce-nodes-not-lifted"] = [
 """),
 ]
 
+# round 10 ---------------------------------------------------------------------------------------
+# K1: `iterative_dfs` runs the callback when a vertex is ENTERED (the returned post-order is unchanged):
+#     collect_arguments / satisfy_constraints run in pre-order
+MULTI["K1-dfs-callback-on-entry"] = [
+    (T, """        recursion.append((w, iter(adj(w))))
+""", """        recursion.append((w, iter(adj(w))))
+        if post_callback is not None:
+            post_callback(w)
+"""),
+    (T, """                if post_callback is not None:
+                    post_callback(u)
+                postorder.append(u)""", """                postorder.append(u)"""),
+]
+# K2: two cooperating sites: the owner table takes the LAST holder (no multiple-owner error) and the
+#     compile walk tolerates a second introduction -> a shared Graph object is emitted under every holder
+MULTI["K2-last-owner-wins-and-force-false"] = [
+    (B, """                if subgraph not in self.scope_tree.subgraph_owner:
+                    self.scope_tree.subgraph_owner[subgraph] = nd
+                if self.scope_tree.subgraph_owner[subgraph] != nd:
+                    raise BuildError(
+                        "Subgraph has multiple owners (the Graph instance was reused)."
+                    )""", """                self.scope_tree.subgraph_owner[subgraph] = nd"""),
+    (B, """            scope.update(
+                node, prefix
+            )  # Throws a ScopeError if we attempt to redeclare a node""",
+     """            scope.update(node, prefix, force=False)"""),
+]
+# K3: cycles are no longer refused by default (the Builder never passes raise_on_cycle)
+MULTI["K3-dfs-cycles-tolerated"] = [
+    (T, """    raise_on_cycle: bool = True,""", """    raise_on_cycle: bool = False,"""),
+]
+
 
 def sh(cmd, **kw):
     return subprocess.run(cmd, shell=True, capture_output=True, text=True, cwd=V, **kw)
